@@ -69,14 +69,36 @@ Line(e) ==
     \/ /\ e.a = "End" /\ \A c \in CallIds : nobs[c] = 1
        /\ UNCHANGED <<vars, seen, nobs, nout>>
 
-\* unobservable client steps, only those the next line can need
+\* Unobservable client steps, demand-driven: only the step the next line needs, so that the search stays
+\* linear in the length of the trace (the specification itself allows them at any time).
+\*  - before Batch(s,k): iterations / timer of that batcher while its open batch is a prefix of the request
+\*    the server reports (calls are taken in issue order = ascending call id);
+\*  - before Out(c,item) / Closed(c): list and single-shard scan - forward exactly the item that was
+\*    delivered (or, for Closed, the pending ends of stream); multi-shard scan - the merge goroutine's next
+\*    step, and the forwarder of the one channel the merge is blocked on.
+RECURSIVE SortedIds(_)
+SortedIds(S) == IF S = {} THEN <<>> ELSE LET m == CHOOSE x \in S : \A y \in S : x <= y IN <<m>> \o SortedIds(S \ {m})
+IsPrefix(a, b) == Len(a) <= Len(b) /\ \A i \in 1..Len(a) : a[i] = b[i]
+LowestWith(c, x) == CHOOSE s \in Shards : wire[c][s] # <<>> /\ Head(wire[c][s]) = x
+                        /\ \A s2 \in Shards : (wire[c][s2] # <<>> /\ Head(wire[c][s2]) = x) => s <= s2
+HasHead(c, x) == \E s \in Shards : wire[c][s] # <<>> /\ Head(wire[c][s]) = x
+
 Silent(e) ==
     /\ UNCHANGED <<l, seen, nobs, nout>>
     /\ \/ /\ e.a = "Batch" /\ e.s \in Shards /\ e.k \in Kinds
-          /\ (Take(e.s, e.k) \/ Timer(e.s, e.k))
-       \/ /\ e.a \in {"Out", "Closed"} /\ e.c \in CallIds
-          /\ \/ \E s \in Shards : Fwd(e.c, s)
-             \/ ListClose(e.c) \/ MTake(e.c) \/ MPop(e.c)
+          /\ LET T == SortedIds(Range(e.p) \cup Range(e.d) \cup Range(e.r)) IN
+             \/ IsPrefix(cur[e.s][e.k], T) /\ Take(e.s, e.k)
+             \/ cur[e.s][e.k] = T /\ Timer(e.s, e.k)
+       \/ /\ e.a \in {"Out", "Closed"} /\ e.c \in CallIds /\ IsStream(calls[e.c])
+          /\ IF MultiScan(e.c)
+             THEN \/ MPop(e.c)
+                  \/ MTake(e.c)
+                  \/ /\ mrg[e.c].ph \in {"prime", "refill"} /\ ~MTakeEn(e.c)
+                     /\ Fwd(e.c, mrg[e.c].i)
+             ELSE LET x == IF e.a = "Out" THEN e.key ELSE EOF IN
+                  \/ /\ Len(out[e.c]) = nout[e.c] /\ HasHead(e.c, x)
+                     /\ Fwd(e.c, LowestWith(e.c, x))
+                  \/ e.a = "Closed" /\ ListClose(e.c)
 
 TNext == /\ l <= Len(TraceLog)
          /\ \/ Consume /\ Line(TraceLog[l])
